@@ -3,6 +3,7 @@ From Cctp Require Import Lib.Bytes Lib.SMap Lib.Bech32.
 From Cctp Require Import Model.State Model.Ledger Model.Handlers Model.Chain.
 From Cctp Require Import Spec.Roles Proofs.MonadFacts Proofs.AdminFacts.
 From Cctp Require Import Vectors.Examples.
+From Cctp Require Import Gen.GoH_AcceptOwner Gen.GoH_AddRemoteTokenMessenger Gen.GoH_DisableAttester Gen.GoH_EnableAttester Gen.GoH_LinkTokenPair Gen.GoH_PauseBurningAndMinting Gen.GoH_PauseSendingAndReceivingMessages Gen.GoH_RemoveRemoteTokenMessenger Gen.GoH_SetMaxBurnAmountPerMessage Gen.GoH_UnlinkTokenPair Gen.GoH_UnpauseBurningAndMinting Gen.GoH_UnpauseSendingAndReceivingMessages Gen.GoH_UpdateAttesterManager Gen.GoH_UpdateMaxMessageBodySize Gen.GoH_UpdateOwner Gen.GoH_UpdatePauser Gen.GoH_UpdateSignatureThreshold Gen.GoH_UpdateTokenController.
 
 (* For every chain whose four role slots are set (every chain initialised from a genesis, see
    C10_roles_always_set), every one of the 18 privileged transaction types (Spec/Roles.v: role_of is
@@ -38,6 +39,29 @@ Example C10_example : roles_set ex_store /\ role_of (PauseBurningAndMinting ex_a
   holder RPauser ex_store <> Some (submitter (PauseBurningAndMinting ex_alice)).
 Proof. vm_compute. repeat split; discriminate. Qed.
 
+(* Each of the 18 privileged handlers AS TRANSLATED FROM THE GO SOURCE rejects, in every state whose role slots are set, every submitter who does not hold the role of the role table, and returns the state exactly as it received it (go_X_auth: forall e request h r, roles_set (h_st h) -> role_of (X request) = Some r -> holder r (h_st h) <> Some from -> go_X e request h = (RErr, h)). The statement is about the Gallina program that tools/goextract TRANSLATED from the Go source of /repo on this run (Gen/GoH_*.v, Gen/GoF_*.v; meaning of the Go constructs: Gen/GoSem.v). For a function the translator could not read the conjunct is True (Gen/<file> names the reason, the evidence lists it) and the tie for it is the differential execution alone. *)
+Theorem C10_go_handlers_reject_wrong_role :
+  go_AcceptOwner_auth /\
+  go_AddRemoteTokenMessenger_auth /\
+  go_DisableAttester_auth /\
+  go_EnableAttester_auth /\
+  go_LinkTokenPair_auth /\
+  go_PauseBurningAndMinting_auth /\
+  go_PauseSendingAndReceivingMessages_auth /\
+  go_RemoveRemoteTokenMessenger_auth /\
+  go_SetMaxBurnAmountPerMessage_auth /\
+  go_UnlinkTokenPair_auth /\
+  go_UnpauseBurningAndMinting_auth /\
+  go_UnpauseSendingAndReceivingMessages_auth /\
+  go_UpdateAttesterManager_auth /\
+  go_UpdateMaxMessageBodySize_auth /\
+  go_UpdateOwner_auth /\
+  go_UpdatePauser_auth /\
+  go_UpdateSignatureThreshold_auth /\
+  go_UpdateTokenController_auth.
+Proof. split; [exact go_AcceptOwner_auth_proof|]. split; [exact go_AddRemoteTokenMessenger_auth_proof|]. split; [exact go_DisableAttester_auth_proof|]. split; [exact go_EnableAttester_auth_proof|]. split; [exact go_LinkTokenPair_auth_proof|]. split; [exact go_PauseBurningAndMinting_auth_proof|]. split; [exact go_PauseSendingAndReceivingMessages_auth_proof|]. split; [exact go_RemoveRemoteTokenMessenger_auth_proof|]. split; [exact go_SetMaxBurnAmountPerMessage_auth_proof|]. split; [exact go_UnlinkTokenPair_auth_proof|]. split; [exact go_UnpauseBurningAndMinting_auth_proof|]. split; [exact go_UnpauseSendingAndReceivingMessages_auth_proof|]. split; [exact go_UpdateAttesterManager_auth_proof|]. split; [exact go_UpdateMaxMessageBodySize_auth_proof|]. split; [exact go_UpdateOwner_auth_proof|]. split; [exact go_UpdatePauser_auth_proof|]. split; [exact go_UpdateSignatureThreshold_auth_proof|]. exact go_UpdateTokenController_auth_proof. Qed.
+
 Print Assumptions C10_wrong_role_no_effect.
 Print Assumptions C10_eighteen_privileged_types.
 Print Assumptions C10_roles_always_set.
+Print Assumptions C10_go_handlers_reject_wrong_role.
